@@ -54,7 +54,7 @@ func (e *C05) Plan(tier string, seed uint64) int {
 	if tier == "thorough" {
 		return 1500
 	}
-	return 64
+	return 96
 }
 func (e *C05) CPUBudget(tier string, idx int) time.Duration { return 20 * time.Minute }
 
